@@ -7,7 +7,7 @@ from harness import ctl
 LEVEL = 'model_checking'
 MANIFEST = {'category': 'model_checking', 'engine': 'symx+z3',
  'technique': 'symbolic execution of the real matcher classes: (L1) combinators and simplify() over abstract leaves with solver-chosen verdicts and always() annotations; (L3) matchers built by the real parser from expression texts rendered out of a grammar AST, evaluated on messages with symbolic ids / incarnations / integer, fixed and fd values and chosen structure, compared with a three-valued reference denotation; whitespace / bracket variants',
- 'text': 'L1: for <= 3 positive and <= 2 negative leaves (every always() annotation, every verdict) and argument tuples of length <= 2, MatcherList / ArgsMatcherList / MessagePattern / PairMatcher evaluate as documented and simplify() does not change the verdict. L3: for each generated expression (all atom kinds, comma/! lists, bracketed components, connection prefix, .new/.destroyed, bare objects, *, !) the parsed and simplified matcher is run on every message structure relevant to the expression (connection none/A/B, target type/id/incarnation, name, <= 1 (quick) / 2 (thorough) arguments of the kinds the expression can distinguish plus others, destroyed object) with symbolic scalars; z3 proves the verdict equals the denotation wherever the documentation decides it. Variants with added whitespace and redundant brackets parse to the same simplified matcher.',
+ 'text': 'L1: for <= 3 positive and <= 2 negative leaves (every always() annotation, every verdict) and argument tuples of length <= 2, MatcherList / ArgsMatcherList / MessagePattern / PairMatcher evaluate as documented and simplify() does not change the verdict. L3: for each generated expression (all atom kinds, comma/! lists, bracketed components, connection prefix, .new/.destroyed, bare objects, *, !) the parsed and simplified matcher is run on every message structure relevant to the expression (connection none/A/B, target type/id/incarnation, name, <= 1 (quick) / 2 (thorough) arguments of the kinds the expression can distinguish plus others, destroyed object) with symbolic scalars; z3 proves the verdict equals the denotation wherever the documentation decides it. Variants with added whitespace and redundant brackets parse to the same simplified matcher. For every third expression also after an earlier session that joined an exclusion of the expression\'s own first alternative (parsed matchers share no state).',
  'note': 'Expression TEXTS are enumerated from the grammar (symbolic text through the hand-written splitter degenerates to enumeration); message scalars are fully symbolic. Don\'t-cares (documentation silent) are listed in spec/matcher_ref.py and DESIGN.md. Trusted: z3, lib/symx.py, spec/matcher_ref.py.'}
 EXPLANATION = MANIFEST['text']
 ASSUMPTIONS = ['reference denotation in spec/matcher_ref.py (written from matchers.md and the property text)', 'fixed-point argument values are k/256 (24.8)']
